@@ -29,6 +29,17 @@ RULE += (" Third round: every public constructor is also called DIRECTLY, not th
          "tuple arguments, filter types 0/1/255, 0..2000 hashes); BloomFilter at the size / function-count / tweak "
          "edges with filterload() default flag; SipHash_2_4 with the data given at construction, by update, split "
          "at every offset, by keyword and through the module aliases.")
+RULE += (" Fourth round (entry-point audit): helper._siphash (the second copy) and murmur3 with its default / keyword "
+         "seed on messages of every length 0..70 made of one byte class (all 00 / ff / 80 / 7f, digits, half and half) "
+         "under keys of one byte class; bytes_to_bit_field / bit_field_to_bytes both ways; the getcfilters / "
+         "getcfheaders / getcfcheckpt requests with explicit, keyword and default arguments; == on filters and cfilter "
+         "messages that differ in exactly one attribute; filters whose count field is written in a longer CompactSize "
+         "form, is smaller than the stream or is 0 before a stream, and streams of one byte value; element sets that "
+         "differ only in length / trailing zeros / around the 8-byte block boundary, block hashes of one byte class; "
+         "failing calls (wrong key size, truncated bytes, refused elements / flags, raising raw_serialize) followed by "
+         "the same call with good arguments on the same objects; every result (lists, filters, messages, bloom "
+         "filters, SipHash copies) edited while its source or a sibling from the same input is used again, inputs as "
+         "tuple / set / bytearray / memoryview; membership asked with the library's own Script objects.")
 TRUSTED = ["hashlib (sha256) for the filter-header chain — hash256 is a universally quantified function in the theorem",
            "modelled, not verified: Script.raw_serialize (a CompactFilter is queried through an object whose "
            "raw_serialize() returns the given bytes); GenericMessage plumbing of filterload"]
@@ -1726,6 +1737,22 @@ def p_independent(key, key2, items, probes, size, fc, tweak):
     C.serialize_gcs(sv)
     if sv != vals:
         return "serialize_gcs modified the value list of the caller"
+    # the same input in the other container types a caller may hold it in
+    if C.hashed_items(key, tuple(items)) != vals or C.encode_gcs(key, tuple(items)) != fb or \
+            C.serialize_gcs(tuple(vals)) != fb:
+        return "hashed_items / encode_gcs / serialize_gcs of a tuple differ from those of the list"
+    if len(set(items)) == n and (C.encode_gcs(key, set(items)) != fb or C.encode_gcs(key, dict.fromkeys(items[::-1])) != fb):
+        return "encode_gcs of a set / of dict keys of distinct elements differs from that of the list"
+    if len(set(vals)) == n and (CF(key, set(vals)).serialize() != fb or CF(key, frozenset(vals)).f != f):
+        return "CompactFilter(key, set of distinct values) differs from CompactFilter(key, list)"
+    ba = bytearray(fb)
+    pb = CF.parse(key, ba)
+    if C.decode_gcs(key, ba) != vals or C.decode_gcs(key, memoryview(fb)) != vals or C.unpack_bits(ba) != C.unpack_bits(fb):
+        return "decode_gcs / unpack_bits of a bytearray / memoryview differ from those of the bytes"
+    for i in range(len(ba)):
+        ba[i] ^= 0xff
+    if pb.serialize() != fb or pb.f != f or any(RawScript(it) not in pb for it in items):
+        return "a filter parsed from a bytearray changes when the caller reuses the buffer"
     # filters from the same bytes / the same list / each other's serialisation
     p1, p2 = CF.parse(key, fb), CF.parse(key, fb)
     c1, c2 = CF(key, vals), CF(key2, vals)
